@@ -37,10 +37,25 @@ def run(cx, chk):
                                   % (fmt_val(n), "; ".join(st.hist[-3:])), g["span"]["file"], e.get("ln"), g["q"], ["root " + f["q"]], cfg)
     chk.rule("C04.R6", "a value duplicated with ptr::read / assume_init_read is not dropped at its source afterwards (unless the source was overwritten with ptr::write first): the copy and the original would both be released")
 
+    chk.rule("C04.R7", "dropping a list releases its two sentinel blocks on every path and every drained node (the live-block half of 'no leak'; engine of C03.R5)")
+    drop_seen = {}
+
     def dup_extra(cfg, F, f, p, w):
         cb_extra(cfg, F, f, p, w)
         ntrun.dup_source_drops(chk, cfg, F, f, p, "C04.R6")
+        if ntrun.is_teardown(f) and f["q"].startswith("<lru::raw::RawLRU"):
+            drop_seen.setdefault(cfg, []).append((len([e for e in w.events_on if e[1] == "free-sentinel"]), len([e for e in w.events_on if e[1] == "rebox"])))
     ntrun.report_findings(cx, chk, ("C04.",), dup_extra)
+    for cfg, F in cx.cfgs():
+        got = drop_seen.get(cfg)
+        if not got:
+            raise AnalysisError("C04.R7: Drop::drop of RawLRU not analysed in %s" % cfg)
+        fd = F.find("RawLRU as core::ops::Drop>::drop")
+        if all(fr == 2 for fr, rb in got) and any(rb >= 1 for fr, rb in got):
+            chk.ob("C04.R7", cfg + ":RawLRU::drop", "both sentinels freed on each of %d paths, drained nodes freed in the loop body" % len(got))
+        else:
+            chk.violation("C04.R7", "RawLRU::drop", "a path of Drop::drop does not free both sentinel blocks exactly once, or no path frees the drained nodes (sentinel frees, node frees per path: %s): heap blocks leak" % sorted(set(got)),
+                          fd["span"]["file"], fd["span"]["lo"], fd["q"], None, cfg)
     for cfg, F in cx.cfgs():
         n_into = 0
         for b in F.doc["bodies"]:
